@@ -15,7 +15,8 @@ def run(ctx):
     lib_ord.check(ctx, wire_bodies(ctx.facts), "ORD-1", PAIRED)
     R.floor("ORD-1", 90)
     from rules.C01 import wire_and_consumption
-    wire_and_consumption(ctx, cons=True)
+    wire_and_consumption(ctx, cons=True, strict_verdict=True)
+    R.floor("VERDICT", 4)
     from rules.C01 import code_tables
     code_tables(ctx)
     from rules import lib_wirep, lib_wirepa
